@@ -34,7 +34,7 @@ def run_queues(ctx, jobs, pb, max_exec, mode='dfs', runs=0, nsh=14, tagx='', per
     xs = run_parallel([lambda t=t: explore(ctx, t[1], t[0], t[2], mode=mode, pb=pb, max_exec=pd.get(t[0], max_exec), runs=runs) for t in tasks], maxw=14)
 
     def tv(x):
-        res = check_histories(ctx, x['name'], x['driver'], 'Queue_Hist', HCONSTS, x, known_preds=['C06_HeadTagBump'] if x['driver'] == 'queue_kirsch' else ())
+        res = check_histories(ctx, x['name'], x['driver'], 'Queue_Hist', HCONSTS, x, known_preds=['C06_HeadTagBump'] if x['driver'] == 'queue_kirsch' else (['C05_ThresholdUnderflow'] if x['driver'] == 'queue_bounded' else ()))
         add_tv_stats(res, [x])
     run_parallel([lambda x=x: tv(x) for x in xs], maxw=8)
     return xs
